@@ -108,7 +108,7 @@ CHECKS = {
             "engine": "tensor-history",
             "design_ref": "DESIGN.md section 3, engine A",
             "level_text": "Seeded search over histories: each run drives a dense tensor and a sparse tensor in lock-step through 4-30 reads/writes in every documented key form (growth, order growth, zero writes, mixed batches, unsorted sparse storage, malformed requests as faults) and compares the full state of both with a dict-of-cells reference model after every step. A clean batch is evidence over the sampled histories, not a proof; violations are ddmin-minimised and replayed in fresh interpreters before being reported.",
-            "level_note": "Trusted: the reference model (sim/engine_a.py Model), numpy. Narrowings: no duplicate positions in one batch, no length-1 index lists, float64 or int64 values, slice strides and negative slice bounds only where nothing grows; index lists as python lists or numpy arrays; a tensor may be assigned into a region of itself. 6% of the runs use tensors of several hundred elements with requests naming 200-1200 positions; 3% are sparse-only histories on modes of 2**24..2**40 (no dense twin; key forms for which the library materialises the extent of a mode are left out there). Two recorded known findings (dense multi-index-list regions) are driven through the subscript-array form on the dense side.",
+            "level_note": "Trusted: the reference model (sim/engine_a.py Model), numpy. Narrowings: no duplicate positions in one batch, no length-1 index lists, float64 or int64 values, slice strides and negative slice bounds only where nothing grows; index lists as python lists or numpy arrays; a tensor may be assigned into a region of itself. 6% of the runs use tensors of several hundred elements with requests naming 200-1200 positions; 3% are sparse-only histories on modes of 2**24..2**40 (no dense twin; key forms for which the library materialises the extent of a mode are left out there). Two recorded known findings (dense multi-index-list regions) are driven through the subscript-array form on the dense side. In half of the runs the integers of a key arrive as numpy integer types of every width and signedness (scalars, index and subscript arrays, also F-ordered, transposed or strided views), and scalar right-hand sides partly as python ints.",
             "technique": "deterministic simulation: seeded history search against an executable reference model (refinement), ddmin + JSON replay",
         },
         "level": "exploration",
@@ -169,7 +169,7 @@ CHECKS = {
             "engine": "solver-world/gcp",
             "design_ref": "DESIGN.md section 3, engine C, C13",
             "level_text": "Seeded search over (a) sampler calls on dense / sparse / nearly-full / nearly-empty data with requests from 0 to beyond the supply, judged against the data by an independent lookup (subscripts inside, values equal data, true zeros, one weight per sample, per-stratum weight totals); (b) histories of 2-5 solves on ONE SGD/Adam/Adagrad/LBFGSB object, some aborted by an injected collaborator fault (sampler, loss callable or user callback raising at its k-th call), each returned solve checked for bounds, best-of-trace, trace length (epochs counted independently through the sampler proxy) and compared (up to rounding, 1e-9 relative) with the same solve on a freshly constructed optimizer under the same random stream and a different clock.",
-            "level_note": "Trusted: the loss callables of pyttb.gcp.handles (used by the harness to recompute estimates), harness' own model evaluation, numpy RNG seeding. Semi-stratified zero samples are by definition not rejection-sampled, so the true-zero clause is not applied to them. Runs whose estimates become NaN are counted and excluded from the ordering clauses.",
+            "level_note": "Trusted: the loss callables of pyttb.gcp.handles (used by the harness to recompute estimates), harness' own model evaluation, numpy RNG seeding. Semi-stratified zero samples are by definition not rejection-sampled, so the true-zero clause is not applied to them. Runs whose estimates become NaN are counted and excluded from the ordering clauses. 30% of the solves are preceded by the construction (half of the time also the use) of another, differently configured optimizer object of the same class. The zero sampler is also called directly, with and without replacement.",
             "technique": "deterministic simulation: seeded stream + scripted clock + faulting sampler/loss proxies; history of solves on one object vs. fresh-object reference (differential)",
         },
         "level": "exploration",
@@ -194,7 +194,7 @@ CHECKS = {
             "engine": "solver-world/presentation",
             "design_ref": "DESIGN.md section 3, engine C, C18",
             "level_text": "Seeded search over problems x relations: for CP-ALS, CP-APR (mu/pdnr/pqnr), HOSVD, Tucker-ALS and GCP/L-BFGS-B a base run and a variant of the same problem are executed inside the simulated world (scripted clock, seeded global random stream, ARPACK start vector behind a seam, captured stdout/logging) and the denoted tensors, iteration counts, fits and the random-stream state afterwards are compared. R1-R4 (same seed incl. fresh interpreter under another PYTHONHASHSEED and after unrelated eigen-solves, verbosity, clock, returned guess) are the simulation proper; R5-R7 (dense/sparse, positive scaling, consistent mode relabelling) are metamorphic relations on the same harness.",
-            "level_note": "Tolerances: 1e-12 relative, i.e. rounding level, for R1/R2/R3 and their variants (bit identity is counted, not demanded: identical calls differ in the last bits through alignment-dependent numpy/BLAS kernels), 1e-12 (R4; 1e-8 for GCP), 1e-8 (R5-R7) relative on the dense tensor, fits to 1e-6. Iteration counts pinned (stoptol=0, small maxiters) for R4-R7, a live convergence tolerance for the bit-identity relations; GCP relabelling with an explicit guess, <= 2 L-BFGS-B iterations, 1e-6; generic continuous data, admissible ranks; pairs whose eigen-gap at a truncation is < 1e-6 are skipped and counted. ARPACK seam always on.",
+            "level_note": "Tolerances: 1e-12 relative, i.e. rounding level, for R1/R2/R3 and their variants (bit identity is counted, not demanded: identical calls differ in the last bits through alignment-dependent numpy/BLAS kernels), 1e-12 (R4; 1e-8 for GCP), 1e-8 (R5-R7) relative on the dense tensor, fits to 1e-6. Iteration counts pinned (stoptol=0, small maxiters) for R4-R7, a live convergence tolerance for the bit-identity relations; GCP relabelling with an explicit guess, <= 2 L-BFGS-B iterations, 1e-6; generic continuous data, admissible ranks; pairs whose eigen-gap at a truncation is < 1e-6 are skipped and counted. ARPACK seam always on. Mode orders are handed over as list, tuple or numpy array (relation R1d: same result in every form). 0.7% of the problems have 70 000-110 000 cells (CP-ALS / MU; dense-vs-sparse and verbosity relations).",
             "technique": "deterministic simulation: paired runs under controlled seed/clock/output/interpreter seams; metamorphic relations for representation, scale and relabelling",
         },
         "level": "exploration",
@@ -220,7 +220,7 @@ CHECKS = {
             "engine": "io-world",
             "design_ref": "DESIGN.md section 3, engine D",
             "level_text": "Seeded search over histories of exports, imports and foreign writes on three paths (so files are overwritten by other types, shorter and longer contents, pre-existing longer files) with export_data/import_data running unmodified on a simulated open(): a duck-typed file over a real descriptor whose Python-level calls (write/flush/tell/seek/readline/close) are events, under per-run buffering configurations (line-buffered, 16, 64, 4096, default). 40% of the runs inject OSError(ENOSPC|EIO) at the k-th write/flush/seek/close; an export that raises makes the path indeterminate until the next successful export, an export that returns must round-trip bit for bit. Oracle: type, shape, exact bit patterns of values/weights/factors, subscripts and their order, 1-based subscripts in the file text (independent reader), index_base honoured for foreign files.",
-            "level_note": "Trusted: the harness' reference copy of each object and its 30-line text reader; the kernel file system under the scratch directory. numpy's C-level writes cannot be faulted individually (faults are injected at the Python calls that bracket them). float64 values only.",
+            "level_note": "Trusted: the harness' reference copy of each object and its 30-line text reader; the kernel file system under the scratch directory. numpy's C-level writes cannot be faulted individually (faults are injected at the Python calls that bracket them). float64 values only. 3% of the Kruskal tensors have 255-700 components; 8% of the sparse tensors store their subscripts in a narrow integer type and reach its largest value.",
             "technique": "deterministic simulation: simulated open() seam with call-level fault injection, history over a path namespace vs. a dict reference model",
         },
         "level": "exploration",
@@ -244,7 +244,7 @@ CHECKS = {
             "engine": "generator-world",
             "design_ref": "DESIGN.md section 3, engine E",
             "level_text": "Seed search: the random generators (sptenrand, sptensor.from_function, tenrand, ktensor.from_function with a random function) are functions of the process-global numpy stream, which the harness seeds per call from its seed tree; every such call is made twice under the same seed (bit-identical result and identical stream state afterwards required) and judged for exact shape, well-formedness (distinct in-range integer subscripts, one value each), requested count / density incl. near saturation, and values being exactly what the (recording) function returned. The deterministic generators (tenones, tenzeros, tendiag, teneye, sptendiag, tensor.from_function) and sptensor.from_aggregator (arbitrary multiplicities and order, reducers sum/min/max/mean/prod/callables, zero results dropped) are checked by direct oracles in the same runs -- that part is plain generated-input checking and is labelled so.",
-            "level_note": "Trusted: harness' dict-based reference for aggregation and diagonals; numpy RNG seeding. For densities the floor or the ceiling of size*density is accepted. One recorded known finding (rejection loop gives up near saturation) is tolerated only where collisions are plausible (n(n-1)/(2 size) > 0.05).",
+            "level_note": "Trusted: harness' dict-based reference for aggregation and diagonals; numpy RNG seeding. For densities the floor or the ceiling of size*density is accepted. One recorded known finding (rejection loop gives up near saturation) is tolerated only where collisions are plausible (n(n-1)/(2 size) > 0.05). Subscripts of the aggregating constructor are handed over in every integer type (int8 ... uint64), partly reaching the type's largest value with the shape left to be inferred.",
             "technique": "deterministic simulation: seed search over the global random stream (paired same-seed calls) + direct oracles for deterministic generators",
         },
         "level": "exploration",
